@@ -111,7 +111,14 @@ def _case(draw, tier):
             runs.append({"base": draw(st.sampled_from(["run_a", "/data/x/run_b", "run_c.mzML", "r d"])),
                          "ext": draw(st.sampled_from([".mzML", ".mzXML", ".raw"])), "spectra": spectra})
         files.append({"runs": runs, "ns": draw(st.booleans())})
-    return {"files": files, "score_names": score_names, "opt_attrs": draw(st.booleans()),
+    # optional hit attributes: all / none, or any subset per file; a later file may lack the last search score (another engine setting)
+    kind = draw(st.sampled_from(["all", "none", "subset", "subset"]))
+    for f in files:
+        f["opt_mask"] = {"all": [True] * 3, "none": [False] * 3}.get(kind) or [draw(st.booleans()) for _ in range(3)]
+        f["drop_last_score"] = False
+    if len(files) > 1 and len(score_names) >= 2:
+        files[draw(st.integers(0, len(files) - 1))]["drop_last_score"] = draw(st.booleans())
+    return {"files": files, "score_names": score_names, "opt_attrs": kind != "none",
             "decoy_prefix": draw(st.sampled_from(["decoy_", "decoy_", "rev_"])), "exclude": draw(st.booleans()),
             "negative": draw(st.sampled_from(["none"] * 10 + ["percolator", "notxml", "otherxml", "otherxml"])),
             "neg_file": draw(st.integers(0, 1)), "neg_doc": draw(st.integers(0, 2))}
@@ -146,9 +153,8 @@ def render(f, case):
                 out.append("<search_result>")
                 for h in g:
                     rank += 1
-                    opt = ""
-                    if case["opt_attrs"]:
-                        opt = f' num_missed_cleavages="{h["opt"][0]}" num_tol_term="{h["opt"][1]}" num_matched_peptides="{h["opt"][2]}"'
+                    mask = f.get("opt_mask") or [bool(case["opt_attrs"])] * 3
+                    opt = "".join(f' {a}="{v}"' for a, v, on in zip(("num_missed_cleavages", "num_tol_term", "num_matched_peptides"), h["opt"], mask) if on)
                     descr = " Some protein OS=Homo sapiens" if h["protein_descr"] else ""
                     out.append(f'<search_hit hit_rank="{rank}" peptide="{h["peptide"]}" protein={quoteattr(_pfx(h["protein"], case) + descr)} '
                                f'num_tot_proteins="{1 + len(h["alts"])}" calc_neutral_pep_mass="{h["calc_mass"]!r}" massdiff="0.1"{opt}>')
@@ -159,7 +165,8 @@ def render(f, case):
                         for m in h["mods"]:
                             mods.append(f'<mod_aminoacid_mass position="{m["position"]}" mass="{m["mass"]}"/>')
                         mods.append("</modification_info>")
-                    scores = [f'<search_score name="{n}" value="{v!r}"/>' for n, v in h["scores"].items()]
+                    scores = [f'<search_score name="{n}" value="{v!r}"/>' for n, v in h["scores"].items()
+                              if not (f.get("drop_last_score") and n == case["score_names"][-1])]
                     if case["negative"] == "percolator":
                         scores.append('<search_score name="Percolator q-Value" value="0.01"/>')
                     out += (alts + mods + scores) if h["alt_first"] else (mods + scores + alts)
@@ -189,7 +196,8 @@ def expected_rows(case):
                     rows.append({"ms_data_file": name, "scan": sp["scan"], "charge": sp["charge"], "ret_time": sp["rt"],
                                  "exp_mass": sp["mass"], "calc_mass": h["calc_mass"], "peptide": pep,
                                  "proteins": "\t".join(prots), "label": not all(p.startswith(case.get("decoy_prefix", "decoy_")) for p in prots),
-                                 "scores": h["scores"], "opt": h["opt"]})
+                                 "scores": {n: v for n, v in h["scores"].items() if not (f.get("drop_last_score") and n == case["score_names"][-1])},
+                                 "opt": h["opt"], "opt_mask": f.get("opt_mask") or [bool(case["opt_attrs"])] * 3})
     return rows
 
 
@@ -250,18 +258,23 @@ def check(case):
                 gv = g[n]
                 require(isinstance(gv, (int, float, np.floating, np.integer)) and not isinstance(gv, bool), "score-not-numeric", f"hit {i}: {n}={gv!r}")
                 # a score whose values happen to be all non-negative may be log-transformed; only then a monotone relation is required
-                col = [x["scores"][n] for x in exp]
+                col = [x["scores"][n] for x in exp if n in x["scores"]]
                 if min(col) < 0:
                     require(float(gv) == v, "score-value", f"hit {i}: {n} {gv!r} != {v!r}")
-            if case["opt_attrs"]:
-                require(int(g["missed_cleavages"]) == e["opt"][0] and int(g["ntt"]) == e["opt"][1], "optional-attribute", f"hit {i}")
-                require(abs(float(g["num_matched_peptides"]) - math.log10(e["opt"][2])) < 1e-12, "optional-attribute", f"hit {i}: num_matched_peptides")
-            else:
-                require("missed_cleavages" not in g and "ntt" not in g, "optional-attribute", "absent attributes produced columns")
+            # optional attributes a hit carries are reported; an attribute no hit of any file carries gives no column
+            for col, val, on, k in zip(("missed_cleavages", "ntt", "num_matched_peptides"), e["opt"], e["opt_mask"], range(3)):
+                if on:
+                    require(col in g and g[col] == g[col], "optional-attribute", f"hit {i}: attribute {col} of the hit was not reported ({g.get(col)!r})")
+                    want = math.log10(val) if col == "num_matched_peptides" else val
+                    require(abs(float(g[col]) - want) < 1e-12, "optional-attribute", f"hit {i}: {col} {g[col]!r} != {want!r}")
+                elif not any(x["opt_mask"][k] for x in exp):
+                    require(col not in g, "optional-attribute", f"absent attribute produced a column {col}")
+                else:
+                    require(col not in g or g[col] != g[col], "optional-attribute", f"hit {i}: {col}={g[col]!r} for a hit without the attribute")
         # every score column is a strictly increasing function of the reported value (identity, or a log transform
         # that puts exact zeros below everything else)
         for nme in case["score_names"]:
-            pairs = sorted((e["scores"][nme], float(g[nme])) for g, e in zip(recs, exp))
+            pairs = sorted((e["scores"][nme], float(g[nme])) for g, e in zip(recs, exp) if nme in e["scores"])
             for (r1, f1), (r2, f2) in zip(pairs, pairs[1:]):
                 ok = (f1 == f2) if r1 == r2 else (f1 < f2)
                 require(ok and math.isfinite(f1) and math.isfinite(f2), "score-order",
